@@ -146,7 +146,7 @@ class _Inliner:
         elif isinstance(call.func, ast.Attribute) and isinstance(call.func.value, ast.Name) and call.func.value.id in self.objs:
             ci = self.objs[call.func.value.id]
             g = ci.methods.get(call.func.attr)
-            if g is None or g in self.keep or g.is_generator or g.decorators or not _returns_ok(g) or g in scope:
+            if g is None or g in self.keep or g.is_generator or (g.decorators and g.decorators != ['property']) or not _returns_ok(g) or g in scope:
                 return None
             ps = g.params[1:]
             if len(call.args) > len(ps) or any(k.arg not in ps for k in call.keywords):
@@ -267,6 +267,19 @@ class _Inliner:
                         for x in ast.walk(r):
                             if isinstance(x, ast.Name) and x.id == name:
                                 x.id = obj
+                    # reading a property of the object is a call of its getter
+                    props = {m_.name for m_ in ci.methods.values() if m_.decorators == ['property']}
+                    if props:
+                        class P(ast.NodeTransformer):
+                            def visit_Attribute(self, node):
+                                self.generic_visit(node)
+                                if isinstance(node.value, ast.Name) and node.value.id == obj and node.attr in props and isinstance(node.ctx, ast.Load):
+                                    call = ast.Call(func=node, args=[], keywords=[])
+                                    return ast.fix_missing_locations(ast.copy_location(call, node))
+                                return node
+                        for i_, r in enumerate(rest):
+                            rest[i_] = P().visit(r)
+                        out[i + 1:] = rest
                     continue
             res.append(s)
         return res
